@@ -63,6 +63,58 @@ theorem splitOn_prefix_partial (p rest : Str) :
     splitOn '/' (p ++ '/' :: rest) = splitOn '/' p ++ splitOn '/' rest :=
   splitOn_append_sep '/' p rest
 
+/-- `"/".join(s.split("/")) == s`: a text is determined by its levels (zero-length levels included). -/
+theorem joinWith_splitOn (d : Char) (s : Str) : joinWith d (splitOn d s) = s := by
+  induction s with
+  | nil => rfl
+  | cons c cs ih =>
+    simp only [splitOn]
+    split
+    · next h =>
+      subst h
+      cases hs : splitOn c cs with
+      | nil => exact absurd hs (splitOn_ne_nil _ _)
+      | cons g gs => rw [hs] at ih; simp [joinWith_cons_cons, ih]
+    · cases hs : splitOn d cs with
+      | nil => exact absurd hs (splitOn_ne_nil _ _)
+      | cons g gs =>
+        rw [hs] at ih
+        cases gs with
+        | nil => simpa [joinWith] using ih
+        | cons g' gs' => simp only [joinWith_cons_cons] at ih ⊢; simp [ih]
+
+/-- Two texts with the same levels are the same text: `/a`, `a`, `a/` and `a//b`, `a/b` all differ. -/
+theorem splitOn_injective (d : Char) (a b : Str) (h : splitOn d a = splitOn d b) : a = b := by
+  rw [← joinWith_splitOn d a, ← joinWith_splitOn d b, h]
+
+theorem levelsMatch_length (fs ts : List Str) (h : levelsMatch fs ts = true) : fs.length = ts.length := by
+  induction fs generalizing ts with
+  | nil => cases ts with
+    | nil => rfl
+    | cons t ts => simp [levelsMatch] at h
+  | cons f fs ih => cases ts with
+    | nil => simp [levelsMatch] at h
+    | cons t ts =>
+      simp only [levelsMatch, Bool.and_eq_true] at h
+      simp [ih ts h.2]
+
+/-- Levels that are not the wildcard match only themselves. -/
+theorem levelsMatch_literal (a b fs ts : List Str) (ha : ['+'] ∉ a) (hl : a.length = b.length)
+    (h : levelsMatch (a ++ fs) (b ++ ts) = true) : a = b ∧ levelsMatch fs ts = true := by
+  induction a generalizing b with
+  | nil => cases b with
+    | nil => exact ⟨rfl, h⟩
+    | cons y ys => simp at hl
+  | cons x xs ih => cases b with
+    | nil => simp at hl
+    | cons y ys =>
+      simp only [List.cons_append, levelsMatch, Bool.and_eq_true, Bool.or_eq_true, beq_iff_eq] at h
+      have hx : x ≠ ['+'] := by intro e; apply ha; simp [e]
+      have hxs : ['+'] ∉ xs := by intro e; apply ha; simp [e]
+      have hxy : x = y := by rcases h.1 with e | e; exact absurd e hx; exact e
+      obtain ⟨e, r⟩ := ih ys hxs (by simpa using hl) h.2
+      exact ⟨by rw [hxy, e], r⟩
+
 /-- Matching one generated filter `p/+/+/k/+/+` against `p/ln/lc/lk/la/lt`: decided by the command
 level alone. -/
 theorem matches_partial (p : Str) (k : Str) (ln lc lk la lt : Str)
